@@ -142,7 +142,10 @@ Inductive tok :=
 | TIntPro (name : str)         (* MODULE PROCEDURE name *)
 | TVar (pro : bool)            (* a declaration with at least one entity (pro: PROCEDURE(...) ::) *)
 | TUse                         (* USE / IMPORT *)
-| TPlain.                      (* everything that does not touch the scope stack *)
+| TPlain                       (* everything that does not touch the scope stack *)
+| TEndDo (bare : bool) (ends : list ereg) (lbl : str).
+      (* an END (as TEnd) on a line that carries statement label lbl while a DO construct is the current scope:
+         the terminal statement of `DO lbl`; the label is no longer pending *)
 
 Inductive res := Ok (s : st) | Crash (why : nat).
 
@@ -171,9 +174,7 @@ Fixpoint close_labels (fuel : nat) (s : st) (n : nat) (lbl : str) : res :=
     end
   end.
 
-Definition step (s : st) (n : nat) (t : tok) : res :=
-  match t with
-  | TEnd bare ends =>
+Definition step_end (s : st) (n : nat) (bare : bool) (ends : list ereg) : res :=
     (* only reached when end_scope_regex is not None *)
     match eregex s with
     | None => Ok s
@@ -194,7 +195,11 @@ Definition step (s : st) (n : nat) (t : tok) : res :=
           end
         else Ok s                              (* END <word> that does not belong to the open construct: falls through *)
       end
-    end
+    end.
+
+Definition step (s : st) (n : nat) (t : tok) : res :=
+  match t with
+  | TEnd bare ends => step_end s n bare ends
   | TLabelled lbl =>
     match eregex s with
     | None => Ok s
@@ -237,6 +242,20 @@ Definition step (s : st) (n : nat) (t : tok) : res :=
     end
   | TUse => ensure_scope s
   | TPlain => Ok s
+  | TEndDo bare ends lbl =>
+    (* the END closes the DO as TEnd does; when it did, the label on top of the pending list, if it is lbl, is dropped *)
+    match step_end s n bare ends with
+    | Ok s1 =>
+      let closed := match eregex s with Some r => bare || existsb (ereg_eqb r) ends | None => false end in
+      match cur_kind s, labels s1 with
+      | Some KDo, top :: rest =>
+        if closed && str_eqb lbl top
+        then Ok (ST (cur s1) (sstack s1) (estack s1) (eregex s1) (none_s s1) (scopes s1) (errs s1) rest (globals s1))
+        else Ok s1
+      | _, _ => Ok s1
+      end
+    | c => c
+    end
   end.
 
 Fixpoint run (s : st) (n : nat) (l : list (nat * tok)) : res :=
